@@ -26,7 +26,7 @@ for p in props:
         'evidence_file': f'/verif/evidence/{pid}.json',
         'replay_cmd_template': f'./check {pid} --replay {{path}}',
         'engine': 'pyvc',
-        'level_claimed': {'category': level, 'text': getattr(m, 'LEVEL_TEXT', m.EXPLANATION), 'design_ref': f'DESIGN.md section 3 ({pid})'},
+        'level_claimed': {'category': level, 'text': getattr(m, 'LEVEL_TEXT', m.EXPLANATION), 'design_ref': f'DESIGN.md section 3 ({pid}, plan) and section 7 (as built)'},
         'level_note': getattr(m, 'LEVEL_NOTE', 'trusted: ' + '; '.join(getattr(m, 'TRUSTED', [])) + '. assumptions: ' + '; '.join(getattr(m, 'ASSUMPTIONS', []))),
         'technique': getattr(m, 'TECHNIQUE', 'contract-based deductive verification: VCs generated from the real Python AST (sidecar contracts, loop invariants, lemmas), discharged by z3/cvc5; executable contracts on the real code for replay'),
     })
